@@ -34,24 +34,75 @@ TIES = {
     "MetadataResetEntry": ("metadata/metadata.go (*Metadata).ResetEntry = Cache.Meta.resetEntry", ["tie_known", "tie_unknown"]),
     "MetadataResetEntryMd": ("metadata/metadata.go (*Metadata).ResetEntry = Metadata.Md.resetEntry (registries, nil pointers, "
                              "InitZero, ResetAction)", ["tie"]),
+    # ---- round 3 (bGEN2): further regions, docs/GEN_TIE.md §1 second table
+    "Coalesce": ("coalesce/coalesce.go (*Queue).Insert, (*Queue).insert, (*Queue).next = Coalesce.insert, Coalesce.insertLocked, "
+                 "Coalesce.nextLocked (closed test, coalesce-or-append, duplicate count, dequeue and map entry deletion)",
+                 ["tie_insertLocked", "tie_insert", "tie_nextLocked"]),
+    "ManagerHandleUpdates": ("manager/manager.go (*Manager).handleUpdates, one iteration of the receive loop = the monitor path "
+                             "recv -> got -> (connect once) -> handle | reset -> connErr of Manager.monNext: every Recv error, io.EOF "
+                             "included, is followed by m.reset and ends the loop", ["tie", "tie_cancelled", "reset_iff_error"]),
+    "ManagerMonitor": ("manager/manager.go (*Manager).createConn (one next hop), (*Manager).monitor and its deferred report = the "
+                       "acquire / release bookkeeping Manager.connEff (acquire iff Connection returned nil, defer done() released "
+                       "before the deferred connectError)",
+                       ["tie_hop", "createConn_acquires_iff_ok", "tie_ledger", "done_before_connectError", "monitor_returns",
+                        "tie_deferred"]),
+    "CacheReset": ("cache/cache.go (*Target).Reset, (*Cache).Reset, (*Cache).Remove, (*Cache).ConnectError = Cache.Target.reset, "
+                   "Cache.State.reset, Cache.State.remove, Cache.State.connectError (order of Reset, unconditional per-root delete "
+                   "then announcement, lock held across the call, unknown target ignored)",
+                   ["loopRoots_eq", "tie_target_reset", "tie_cache_reset", "tie_cache_remove", "tie_cache_connectError"]),
+    "CacheTimestamp": ("cache/cache.go (*Target).checkTimestamp, the prologue and the deferred closure of (*Target).GnmiUpdate = "
+                       "Cache.Target.checkTimestamp, Cache.tracksTimestamp?, the last line of Cache.Target.gnmiUpdate (compare and "
+                       "store in one critical section; tracking installed for non-meta updates, run iff updateTS)",
+                       ["tie_checkTimestamp", "tie_track", "tie_deferred", "tie_gnmiUpdate"]),
+    "SubscribeWalk": ("subscribe/subscribe.go (*Server).processSubscription (body, loop body, visitor, deferred report) = "
+                      "Sub.walkItems / Sub.doWalk (every path completed and queried, the error of Query dropped, every leaf inserted, "
+                      "then the sync marker)", ["leaves_eq", "loop_eq", "tie_walk", "tie_walk_error", "tie_report", "leaf_stops_on_error"]),
+    "SubscribeRegister": ("subscribe/subscribe.go addSubscription, loop body = Sub.regQueries (origin of the path appended iff the "
+                          "prefix has none)", ["tie_one", "tie"]),
+    "SubscribeUpdate": ("subscribe/subscribe.go (*Server).Update, UpdateNotification = Match.serverUpdate, Match.updateNotification "
+                        "(one `updated` set per notification, updates then deletes)", ["tie_notification", "tie_update"]),
+    "SubscribeMakeResponse": ("subscribe/subscribe.go (*Server).MakeSubscribeResponse: the duplicate count of Sub.toResp is written "
+                              "to a deep clone only", ["tie_dup", "only_clone_written", "no_report"]),
+    "ConnectionConnect": ("connection/connection.go (*Manager).Connection, (*Manager).dial = the atomic sections r0, r1 (Conn.doR1), "
+                          "r3 and d2 (Conn.doD2) of the connection LTS (create-or-join keyed by addr, ref++ before the wait, "
+                          "remove then publish the error, ready closed last)",
+                          ["tie_r0", "tie_r1_join", "tie_r1_create", "tie_r3", "tie_d2", "dial_shape"]),
+    "ClientClose": ("client/reconnect.go (*ReconnectClient).Close / Poll, client/register.go getFirst goroutine = ClientLTS K steps "
+                    "closeCs (Cfg.doCloseCs), closeInner, closeWait; ClientFirst fnImpl|fnErr, sendErr (an error is always sent)",
+                    ["tie_closeCs", "tie_close", "poll_shape", "tie_worker"]),
+    "CtreeEntry": ("ctree/tree.go (*Tree).Query, WalkDeleted, DeleteConditional, Delete = Trie.query / Trie.del on the caller's "
+                   "path, unchanged", ["tie_query", "tie_walkDeleted", "tie_deleteConditional", "tie_delete"]),
+    "TargetHandleDiffs": ("target/target.go (*Config).handleDiffs, the three loop bodies = TargetCfg.requestChanged, "
+                          "TargetCfg.diffOld, TargetCfg.addLeft (whole-message comparison of requests)",
+                          ["tie_req", "tie_old", "tie_new", "tie_handleDiffs"]),
+    "FakeQueueAddValue": ("testing/fake/queue/queue.go (*UpdateQueue).addValue, prologue = FQ.Val.withTs and the latest tracking of "
+                          "FQ.addValue (exact int64 comparison)", ["tie"]),
+    "PathToStrings": ("path/path.go ToStrings (body and element loop) = PV.toStrings (fresh slice in the deprecated-element branch)",
+                      ["loopElems_eq", "tie", "tie_nil"]),
 }
 
 # A property lists an obligation module only when the truth of its theorems hinges on the decision logic the
 # module ties (a broken obligation is an alarm for the property: it must not be one for a property the change
 # cannot affect).  E.g. C03/C15 need the *shape* of the existing-leaf arm, not the timestamp rule (C02).
 USES = {
-    "C02": ["CacheGnmiUpdateLeaf", "CacheGnmiUpdateVerdict", "CacheGnmiRemoveOlder"],
-    "C03": ["CacheGnmiUpdateDispatch", "CacheGnmiUpdateLeaf"],
-    "C04": ["SubscribeReject", "SubscribeHandler", "SubscribeIsTargetDelete"],
-    "C05": ["SubscribeReject", "SubscribeHandler"],
+    "C01": ["ManagerHandleUpdates"],
+    "C02": ["CacheGnmiUpdateLeaf", "CacheGnmiUpdateVerdict", "CacheGnmiRemoveOlder", "CacheTimestamp", "CtreeEntry"],
+    "C03": ["CacheGnmiUpdateDispatch", "CacheGnmiUpdateLeaf", "CacheReset"],
+    "C04": ["SubscribeReject", "SubscribeHandler", "SubscribeIsTargetDelete", "SubscribeWalk", "SubscribeRegister"],
+    "C05": ["SubscribeReject", "SubscribeHandler", "SubscribeWalk", "SubscribeMakeResponse"],
+    "C06": ["SubscribeRegister", "SubscribeUpdate"],
     "C07": ["SubscribeSend", "SubscribeReject"],
-    "C08": ["SubscribeSend"],
-    "C14": ["MetadataResetEntry", "MetadataResetEntryMd"],
-    "C15": ["CacheGnmiUpdateLeaf", "CacheGnmiUpdateDispatch", "Latency"],
-    "C16": ["Connection"],
-    "C17": ["TargetCheckRevision"],
-    "C18": ["ClientReconnectLoop"],
-    "C20": ["FakeQueueUpdateTimestamp"],
+    "C08": ["SubscribeSend", "Coalesce", "SubscribeMakeResponse"],
+    "C09": ["CtreeEntry"],
+    "C11": ["Coalesce"],
+    "C13": ["ManagerHandleUpdates", "ManagerMonitor"],
+    "C14": ["MetadataResetEntry", "MetadataResetEntryMd", "CacheReset", "SubscribeWalk"],
+    "C15": ["CacheGnmiUpdateLeaf", "CacheGnmiUpdateDispatch", "Latency", "CacheReset", "CacheTimestamp"],
+    "C16": ["Connection", "ConnectionConnect", "ManagerMonitor"],
+    "C17": ["TargetCheckRevision", "TargetHandleDiffs"],
+    "C18": ["ClientReconnectLoop", "ClientClose"],
+    "C19": ["PathToStrings"],
+    "C20": ["FakeQueueUpdateTimestamp", "FakeQueueAddValue"],
 }
 
 TB = ("decision-logic translator go/vtrans (docs/GEN_TIE.md): atoms (uninterpreted calls, selectors, nil tests) are pure and "
@@ -72,6 +123,11 @@ def apply(props):
             p["theorems"] = p["theorems"] + ["%s.%s" % (mod, t) for t in TIES[m][1]]
         p["trusted_base"] = list(p.get("trusted_base", [])) + [TB]
         p.setdefault("gen_ties", [TIES[m][0] for m in mods])
+        man = p.get("manifest")
+        if isinstance(man, dict) and "level_text" in man and "docs/GEN_TIE.md" not in man["level_text"]:
+            man["level_text"] = (man["level_text"].rstrip() + " The decision logic of the Go functions the model definitions follow is "
+                                 "re-translated from the source on every run and proved equal to them (docs/GEN_TIE.md; obligation modules "
+                                 + ", ".join("Gnmi.GenProps." + m for m in mods) + ").")
 
 
 # String facts (lib/facts.py, lib/steps_C17.py) that compare the *text* of a condition with what the model
@@ -89,6 +145,11 @@ SUPERSEDES = {
     "subscribe.once.closeAfterWalk": ["SubscribeHandler"],
     "subscribe.poll.spawn": ["SubscribeHandler"],
     "subscribe.send.aclBeforeSend": ["SubscribeSend"],
+    "subscribe.walk.order": ["SubscribeWalk"],
+    "subscribe.updateNotification.set": ["SubscribeUpdate"],
+    "cache.reset.order": ["CacheReset"],
+    "cache.remove.announces": ["CacheReset"],
+    "target.handleDiffs.handler_calls": ["TargetHandleDiffs"],
 }
 
 
